@@ -1,6 +1,6 @@
 (* C04: closing pays exactly the position's equity; bad debt cannot be cashed out.  Statements only. *)
 From MP.Model Require Import Prelude U128 SInt Feed Vamm VammOps Token World Engine Runtime.
-From MP.Proofs Require Import Tactics SIntFacts EngineArith CloseFacts.
+From MP.Proofs Require Import Tactics SIntFacts EngineArith CloseFacts CloseTxFacts Scenario.
 
 (* the margin arithmetic in mathematical integers: funding owed = (cumulative fraction - checkpoint)
    x size / D truncated; remaining margin = delta - funding + margin, negative part = bad debt *)
@@ -43,3 +43,44 @@ Theorem C04_fund_draw_is_recorded : forall w st receiver amount pre st' msgs,
      e_bad_debt st' = e_bad_debt st + shortfall /\ e_oi st' = e_oi st /\ e_pause st' = e_pause st).
 Proof. exact withdraw_spec. Qed.
 Print Assumptions C04_fund_draw_is_recorded.
+
+(* END TO END.  A ClosePosition transaction that closes the whole position (nothing is left stored for the
+   sender) - swap, reply, insurance-fund draw, payout and fee transfers, for every fault index - changes the
+   closer's wallet by exactly: - funds attached + equity - fees pulled (cw20; a native deployment pays the
+   fees out of the vault), where equity = stored margin + realized PnL at the executed price - funding owed,
+   and equity >= 0: a close that would have to pay out of bad debt does not succeed. *)
+Theorem C04_close_position_tx_pays_equity : forall f w t v lim funds w',
+  exec_op f w (OEngine t (EClosePosition v lim) funds) = Ok w' ->
+  let p := read_position (w_eng w) v t in
+  pos_wf p -> cpf_wf (w_eng w) v -> 0 < e_dec (ec (w_eng w)) ->
+  t <> A_ENGINE -> t <> A_IFUND -> t <> if_engine (w_if w) ->
+  t <> e_ifund (ec (w_eng w)) -> t <> e_feepool (ec (w_eng w)) ->
+  find_position (w_eng w') v t = None ->
+  exists vm vm' o, get_vamm w v = Ok vm /\
+    swap_output vm (w_env w) A_ENGINE (p_dir p) (sval (p_size p)) lim = Ok (vm', (o, sval (p_size p))) /\
+    let equity := p_margin p + close_rpnl p o (p_notional p) - funding_owed w v p in
+    0 <= equity /\
+    bal (w_tok w') t = bal (w_tok w) t - funds + equity
+      - (if t_native (w_tok w) then 0 else fee_of vm (p_notional p) (v_spread (vc vm)) + fee_of vm (p_notional p) (v_toll (vc vm))).
+Proof. exact close_position_tx_pays. Qed.
+Print Assumptions C04_close_position_tx_pays_equity.
+
+(* non-vacuity: in the concrete scenario (Scenario.v) trader 21's ClosePosition succeeds, leaves no position,
+   every premise of the theorem holds, and the wallet moves by exactly margin + PnL (no fees, no funding) *)
+Definition c04_example : bool :=
+  match scenario with
+  | Ok w =>
+      match exec_op (-1) w (OEngine 21 (EClosePosition 11 0) 0) with
+      | Ok w' =>
+          let p := read_position (w_eng w) 11 21 in
+          pos_wfb p && wf0b (cumulative_premium_fraction (w_eng w) 11) && (0 <? e_dec (ec (w_eng w))) &&
+          negb (21 =? A_ENGINE) && negb (21 =? A_IFUND) && negb (21 =? if_engine (w_if w)) &&
+          negb (21 =? e_ifund (ec (w_eng w))) && negb (21 =? e_feepool (ec (w_eng w))) &&
+          match find_position (w_eng w') 11 21 with None => true | Some _ => false end &&
+          negb (bal (w_tok w') 21 =? bal (w_tok w) 21)
+      | Err _ => false
+      end
+  | Err _ => false
+  end.
+Example C04_nonvacuous : c04_example = true.
+Proof. vm_compute. reflexivity. Qed.
